@@ -17,6 +17,7 @@ def out (s : OnBalanceVolume F) (b : Bar F) : F :=
 theorem nextBar_eq (s : OnBalanceVolume F) (b : Bar F) :
     s.nextBar b = some ({ obv := out s b, prev_close := b.close }, out s b) := by
   unfold nextBar out
+  try simp only [gen_helper]
   cases Scalar.lt s.prev_close b.close <;> cases Scalar.lt b.close s.prev_close <;> rfl
 
 theorem nextBar_up (s : OnBalanceVolume F) (b : Bar F) (h : Scalar.lt s.prev_close b.close = true) :
